@@ -97,13 +97,15 @@ UsingCond(ul, ur, wl) ==
   IN mk(1)
 Coalesce(a, b) == IF a.n THEN b ELSE a
 Others(w, used) == SelectSeq([i \in 1..w |-> i], LAMBDA i : \A k \in 1..Len(used) : used[k] # i)
-UsingShape(row, ul, ur, wl, wr) ==
-  [k \in 1..Len(ul) |-> Coalesce(row[ul[k]], row[wl + ur[k]])]
+\* (the two sides are equal under = where both are present; the text shown is that of the preserved side:
+\* the right one for RIGHT joins, otherwise the left one)
+UsingShape(row, ul, ur, wl, wr, preferRight) ==
+  [k \in 1..Len(ul) |-> IF preferRight THEN Coalesce(row[wl + ur[k]], row[ul[k]]) ELSE Coalesce(row[ul[k]], row[wl + ur[k]])]
   \o [k \in 1..Len(Others(wl, ul)) |-> row[Others(wl, ul)[k]]]
   \o [k \in 1..Len(Others(wr, ur)) |-> row[wl + Others(wr, ur)[k]]]
 UsingJoin(kind, L, R, ul, ur, wl, wr) ==
   LET j == JoinRows(kind, L, R, UsingCond(ul, ur, wl), wl, wr) IN
-  [i \in 1..Len(j) |-> UsingShape(j[i], ul, ur, wl, wr)]
+  [i \in 1..Len(j) |-> UsingShape(j[i], ul, ur, wl, wr, kind = "right")]
 
 -----------------------------------------------------------------------------
 (* 4. Buckets (C04)                                                          *)
